@@ -65,8 +65,23 @@ func GenFunc(prog *Prog, fn *ssa.Function, fc *FuncContract) *VC {
 		vc.assume(t)
 	}
 	// vacuity guard: the precondition (with well-formedness of inputs) is satisfiable
-	cover := vc.oblige("cover", "cover.requires", "precondition is satisfiable", vc.pos(fn.Pos()), "true", "false")
-	cover.ExpectFail = true
+	// (a function without requires has nothing that could be contradictory: inputs are only assumed well formed)
+	if len(fc.Requires) > 0 {
+		cover := vc.oblige("cover", "cover.requires", "precondition is satisfiable", vc.pos(fn.Pos()), "true", "false")
+		cover.ExpectFail = true
+	}
+	// global invariants: postconditions of a package initialiser, assumed at entry; assumed after the cover so the vacuity guard concerns the requires only; sound because the
+	// initialiser is verified against them and the "global-frame" static obligation shows nothing else writes the data
+	for _, u := range fc.Uses {
+		t, err := vc.globalInvariant(u, st0)
+		if err != nil {
+			vc.errorf("uses %s: %v", u, err)
+			continue
+		}
+		reqs = append(reqs, t)
+		vc.assume(t)
+		enc.notes["global invariant "+u+" assumed at entry (established by the package initialiser's contract, preserved per the global-frame obligation)"] = true
+	}
 	vc.runBody(fr, st0, "true")
 	// postconditions: all return points are merged into one exit state
 	if len(fr.rets) > 0 {
@@ -251,6 +266,10 @@ func (vc *VC) Query(o *Obligation, wantModel bool) string {
 			sb.WriteString("\n")
 		}
 	}
+	for _, l := range vc.enc.strLitFacts(needed) {
+		sb.WriteString(l)
+		sb.WriteString("\n")
+	}
 	if vc.enc.absFloat {
 		// floating-point arithmetic as uninterpreted functions (option floatabs): a sound abstraction
 		// for obligations that only need "the same operands give the same result"
@@ -337,3 +356,31 @@ func pruneMemLines(lines []string, goal string) []string {
 }
 
 var _ = types.Typ
+
+// globalInvariant evaluates the ensures clause <label> of package <name>'s init contract in state st.
+func (vc *VC) globalInvariant(ref string, st *State) (string, error) {
+	i := strings.LastIndex(ref, ".")
+	if i < 0 {
+		return "", fmt.Errorf("want <package>.<label>")
+	}
+	pname, label := ref[:i], ref[i+1:]
+	for path, cf := range vc.prog.Contracts {
+		sp := vc.prog.SSAPkgs[path]
+		if sp == nil || sp.Pkg.Name() != pname {
+			continue
+		}
+		fc := cf.Funcs["init"]
+		if fc == nil {
+			continue
+		}
+		for _, en := range fc.Ensures {
+			if en.Label != label {
+				continue
+			}
+			none := func(string) (Val, bool) { return Val{}, false }
+			ctx := &SpecCtx{vc: vc, lookup: none, st: st, oldSt: st, oldLookup: none, pkg: sp.Pkg, fnName: "init"}
+			return ctx.EvalBool(en.E)
+		}
+	}
+	return "", fmt.Errorf("no init contract clause %s", ref)
+}
